@@ -1,10 +1,10 @@
 SPECIFICATION Spec
 CONSTANTS
   Routers = {"P", "L"}
-  Ops = {"Authorize", "Login", "Callback", "CodeExchange"}
+  Ops = {"Authorize", "Login", "Callback", "CodeExchange", "UserInfo", "Introspect", "Revoke", "Expire", "EndSession"}
   MaxReq = 2
   MaxCode = 1
-  MaxAT = 2
+  MaxAT = 3
   MaxDev = 0
   MaxSteps = 99
   Seeded = FALSE
